@@ -17,6 +17,7 @@ import (
 
 	gmsl "github.com/matrix-org/gomatrixserverlib"
 	"github.com/matrix-org/gomatrixserverlib/spec"
+	"github.com/tidwall/gjson"
 
 	"verifharness/hx"
 )
@@ -79,6 +80,8 @@ type outcome struct {
 	Same  bool   // ... and the returned event is the submitted one apart from signatures / unsigned
 	Note  string // what was wrong with the returned object, if anything
 	Again string // how a second call with the very same input objects differed, if it did
+	// tables of R the handler asked under another identity than the member's sender ID ("membership:uid", ...)
+	WrongKey []string
 	Err   string
 	Extra map[string]interface{}
 }
@@ -124,6 +127,7 @@ func remoteVersions(cls string, ver gmsl.RoomVersion) []gmsl.RoomVersion {
 
 func (w *world) callMakeJoin(q *Msg) outcome {
 	user := userOf(q.Usrv)
+	asks := &askLog{key: w.sid(user), user: user}
 	in := gmsl.HandleMakeJoinInput{
 		Context:            context.Background(),
 		UserID:             mustUserID(user),
@@ -134,7 +138,7 @@ func (w *world) callMakeJoin(q *Msg) outcome {
 		RequestOrigin:      servers[q.Origin].name,
 		LocalServerName:    servers["R"].name,
 		LocalServerInRoom:  w.sc.InRoom && q.Room == "main",
-		RoomQuerier:        restrictedQuerier{w},
+		RoomQuerier:        restrictedQuerier{w, asks},
 		UserIDQuerier:      w.uidQuerier("ok"),
 		BuildEventTemplate: w.templateBuilder(),
 	}
@@ -142,12 +146,12 @@ func (w *world) callMakeJoin(q *Msg) outcome {
 	_, err2 := gmsl.HandleMakeJoin(in)
 	again := sameAgain(err, err2)
 	if err != nil {
-		return outcome{Res: "refused", Code: errClass(err), Err: err.Error(), Again: again}
+		return outcome{Res: "refused", Code: errClass(err), Err: err.Error(), Again: again, WrongKey: asks.wrongKeys()}
 	}
 	if resp == nil {
 		return outcome{Res: "refused", Code: "nil", Err: "nil response without error"}
 	}
-	o := outcome{Res: "ok", Again: again}
+	o := outcome{Res: "ok", Again: again, WrongKey: asks.wrongKeys()}
 	t := w.projectTemplate(resp.JoinTemplateEvent)
 	o.Tmpl = &t
 	if resp.RoomVersion != w.ver {
@@ -250,6 +254,9 @@ func (w *world) callSendJoin(c sendJoinCall) outcome {
 		rv = "c15.unknown.version"
 	}
 	R := servers["R"]
+	// the member the request is about: the join's sender (= its state key), whatever its user ID is
+	member := gjson.GetBytes(c.event, "sender").String()
+	asks := &askLog{key: member, user: w.userOfSender(member)}
 	in := gmsl.HandleSendJoinInput{
 		Context:           context.Background(),
 		RoomID:            mustRoomID(c.room),
@@ -261,7 +268,7 @@ func (w *world) callSendJoin(c sendJoinCall) outcome {
 		KeyID:             R.keyID,
 		PrivateKey:        R.priv,
 		Verifier:          keyRingFor(w.sc, c.expired),
-		MembershipQuerier: membershipQuerier{w.sc.Mem, w.sc.Env == "memq_err"},
+		MembershipQuerier: membershipQuerier{w.sc.Mem, w.sc.Oth, w.sc.Env == "memq_err", asks},
 		UserIDQuerier:     userIDQuerier(w.sc.UQ),
 		StoreSenderIDFromPublicID: func(ctx context.Context, senderID spec.SenderID, userID string, id spec.RoomID) error {
 			return nil
@@ -279,12 +286,12 @@ func (w *world) callSendJoin(c sendJoinCall) outcome {
 	_, err2 := gmsl.HandleSendJoin(in) // the second send_join of the same user with the same request
 	again := sameAgain(err, err2)
 	if err != nil {
-		return outcome{Res: "refused", Code: errClass(err), Err: err.Error(), Again: again}
+		return outcome{Res: "refused", Code: errClass(err), Err: err.Error(), Again: again, WrongKey: asks.wrongKeys()}
 	}
 	if resp == nil || resp.JoinEvent == nil {
 		return outcome{Res: "refused", Code: "nil", Err: "nil response without error"}
 	}
-	o := outcome{Res: "ok", Again: again}
+	o := outcome{Res: "ok", Again: again, WrongKey: asks.wrongKeys()}
 	w.judgeReturned(&o, c.event, resp.JoinEvent.JSON())
 	o.Extra = map[string]interface{}{"returned": json.RawMessage(resp.JoinEvent.JSON())}
 	return o
@@ -330,6 +337,7 @@ func (w *world) callInvite(c inviteCall) outcome {
 		return outcome{Res: "refused", Code: "parse", Err: err.Error()}
 	}
 	R := servers["R"]
+	asks := &askLog{key: userInvitee, user: userInvitee}
 	in := gmsl.HandleInviteInput{
 		RoomID:            mustRoomID(c.room),
 		RoomVersion:       rv,
@@ -340,7 +348,7 @@ func (w *world) callInvite(c inviteCall) outcome {
 		PrivateKey:        R.priv,
 		Verifier:          keyRingFor(w.sc, c.expired),
 		RoomQuerier:       roomQuerier{w.sc.Known, w.sc.Env == "rq_err"},
-		MembershipQuerier: membershipQuerier{w.sc.Mem, w.sc.Env == "memq_err"},
+		MembershipQuerier: membershipQuerier{w.sc.Mem, w.sc.Oth, w.sc.Env == "memq_err", asks},
 		StateQuerier:      stateQuerier{w},
 		UserIDQuerier:     userIDQuerier(w.sc.UQ),
 		StrippedState:     w.strippedState(),
@@ -349,12 +357,12 @@ func (w *world) callInvite(c inviteCall) outcome {
 	_, err2 := gmsl.HandleInvite(context.Background(), in) // the same invite delivered again (same event object)
 	again := sameAgain(err, err2)
 	if err != nil {
-		return outcome{Res: "refused", Code: errClass(err), Err: err.Error(), Again: again}
+		return outcome{Res: "refused", Code: errClass(err), Err: err.Error(), Again: again, WrongKey: asks.wrongKeys()}
 	}
 	if out == nil {
 		return outcome{Res: "refused", Code: "nil", Err: "nil event without error"}
 	}
-	o := outcome{Res: "ok", Again: again}
+	o := outcome{Res: "ok", Again: again, WrongKey: asks.wrongKeys()}
 	w.judgeReturned(&o, ev.JSON(), out.JSON())
 	o.Extra = map[string]interface{}{"returned": json.RawMessage(out.JSON())}
 	return o
@@ -393,6 +401,7 @@ func (w *world) callInviteV3(q *Msg) outcome {
 		// room versions whose sender IDs are user IDs: the endpoint still completes and signs the template
 		invitedSender, inviter = spec.SenderID(userInvitee), spec.SenderID(userOf("J"))
 	}
+	asks := &askLog{key: string(invitedSender), user: userInvitee}
 	proto := gmsl.ProtoEvent{SenderID: string(inviter), RoomID: w.roomID(q.Proom), Type: spec.MRoomMember, StateKey: strp(""),
 		PrevEvents: []string{w.last}, AuthEvents: w.authFor(w.create, w.pl, w.jr), Depth: w.depth + 1, Content: []byte(`{"membership":"invite"}`)}
 	in := gmsl.HandleInviteV3Input{
@@ -405,7 +414,7 @@ func (w *world) callInviteV3(q *Msg) outcome {
 			PrivateKey:        R.priv,
 			Verifier:          keyRing(nil),
 			RoomQuerier:       roomQuerier{w.sc.Known, w.sc.Env == "rq_err"},
-			MembershipQuerier: membershipQuerier{w.sc.Mem, w.sc.Env == "memq_err"},
+			MembershipQuerier: membershipQuerier{w.sc.Mem, w.sc.Oth, w.sc.Env == "memq_err", asks},
 			StateQuerier:      stateQuerier{w},
 			UserIDQuerier:     userIDQuerier(w.sc.UQ),
 			StrippedState:     w.strippedState(),
@@ -417,12 +426,12 @@ func (w *world) callInviteV3(q *Msg) outcome {
 	}
 	out, err := gmsl.HandleInviteV3(context.Background(), in)
 	if err != nil {
-		return outcome{Res: "refused", Code: errClass(err), Err: err.Error()}
+		return outcome{Res: "refused", Code: errClass(err), Err: err.Error(), WrongKey: asks.wrongKeys()}
 	}
 	if out == nil {
 		return outcome{Res: "refused", Code: "nil", Err: "nil event without error"}
 	}
-	o := outcome{Res: "ok", RSig: true, Same: true}
+	o := outcome{Res: "ok", RSig: true, Same: true, WrongKey: asks.wrongKeys()}
 	// the completed event is the template for the invited user's room key, signed with that key
 	m, _ := out.Membership()
 	switch {
@@ -463,6 +472,18 @@ func whyKey(why []string) string {
 // compareStep compares one handler outcome with the history entry the specification derived.
 // Returns "" when they agree, otherwise (key suffix, explanation).
 func compareStep(h *Hist, o outcome) (string, string) {
+	k, what := compareStep0(h, o)
+	if k != "" && len(o.WrongKey) > 0 && !strings.HasSuffix(k, "second-call-with-the-same-input-differs") {
+		// the tables of the resident server are keyed by sender ID: a question put under another identity of the
+		// member (its user ID in a pseudo-ID room) or under another member gets that row's answer
+		k += "/asked-under=" + strings.Join(o.WrongKey, "+")
+		what += fmt.Sprintf("; the handler asked %v - the table(s) under an identity other than the sender ID of the member the request is about "+
+			"(uid: the member's user ID, peer: another member)", o.WrongKey)
+	}
+	return k, what
+}
+
+func compareStep0(h *Hist, o outcome) (string, string) {
 	if o.Again != "" {
 		return h.A + "/second-call-with-the-same-input-differs", h.A + ": " + o.Again
 	}
@@ -562,7 +583,7 @@ func replayProduct(raw json.RawMessage) hx.Result {
 	}
 	if k, what := compareStep(h, o); k != "" {
 		return hx.Result{OK: false, Key: base + k, What: what, Want: map[string]interface{}{"res": h.Res, "why": h.Why, "code": h.Code},
-			Got: map[string]interface{}{"res": o.Res, "code": o.Code, "err": o.Err, "note": o.Note}, Extra: o.Extra}
+			Got: map[string]interface{}{"res": o.Res, "code": o.Code, "err": o.Err, "note": o.Note, "asked_under_other_identity": o.WrongKey}, Extra: o.Extra}
 	}
 	return hx.Result{OK: true, NT: ntOf(h, o)}
 }
